@@ -26,14 +26,15 @@ def enc_ops(ops):
     return out
 
 
-def mk_chain(s1, sc1, s2, sc2, ws, ops, src):
-    ints = [4, 2, len(s1)] + list(s1) + enc_script(sc1) + [len(s2)] + list(s2) + enc_script(sc2) + enc_script(ws) + enc_ops(ops)
+def mk_chain(s1, sc1, s2, sc2, ws, ops, src, vect=False):
+    # variant 2: the crate's adapter and the std type side by side; 3: the same through the single-slice vectored entry points
+    ints = [4, 3 if vect else 2, len(s1)] + list(s1) + enc_script(sc1) + [len(s2)] + list(s2) + enc_script(sc2) + enc_script(ws) + enc_ops(ops)
     return Case(ints, {"fam": "chain", "s1": list(s1), "sc1": [list(t) for t in sc1], "s2": list(s2), "sc2": [list(t) for t in sc2],
                        "ws": [list(t) for t in ws], "ops": [list(o) if o[0] != "W" else ["W", list(o[1])] for o in ops], "src": src})
 
 
-def mk_take(limit, s2, sc2, ws, ops, src):
-    ints = [5, 2, limit, len(s2)] + list(s2) + enc_script(sc2) + enc_script(ws) + enc_ops(ops)
+def mk_take(limit, s2, sc2, ws, ops, src, vect=False):
+    ints = [5, 3 if vect else 2, limit, len(s2)] + list(s2) + enc_script(sc2) + enc_script(ws) + enc_ops(ops)
     return Case(ints, {"fam": "take", "limit": limit, "s2": list(s2), "sc2": [list(t) for t in sc2], "ws": [list(t) for t in ws],
                        "ops": [list(o) if o[0] != "W" else ["W", list(o[1])] for o in ops], "src": src})
 
@@ -248,7 +249,7 @@ class C08(AdapterProp):
                     ops.append(("W", [rng.randrange(256) for _ in range(rng.randrange(0, 5))]))
                 else:
                     ops.append(("F",))
-            cases.append(mk_chain(s1, rscripts(rng, rng.randrange(0, 6)), s2, rscripts(rng, rng.randrange(0, 6)), wscripts(rng, rng.randrange(0, 4)), ops, "random"))
+            cases.append(mk_chain(s1, rscripts(rng, rng.randrange(0, 6)), s2, rscripts(rng, rng.randrange(0, 6)), wscripts(rng, rng.randrange(0, 4)), ops, "random", vect=rng.random() < 0.2))
         if NOVEL:
             cases += dictionary_chain()
         return cases
@@ -303,7 +304,7 @@ class C09(AdapterProp):
                     ops.append(("W", [rng.randrange(256) for _ in range(rng.randrange(0, 5))]))
                 else:
                     ops.append(("F",))
-            cases.append(mk_take(limit, s2, rscripts(rng, rng.randrange(0, 7)), wscripts(rng, rng.randrange(0, 4)), ops, "random"))
+            cases.append(mk_take(limit, s2, rscripts(rng, rng.randrange(0, 7)), wscripts(rng, rng.randrange(0, 4)), ops, "random", vect=rng.random() < 0.2))
         if NOVEL:
             cases += dictionary_take()
         return cases
